@@ -5,10 +5,12 @@
 (*   {"ev":"step","op":"resetvars"}       ResetVars was called               *)
 (*   {"ev":"step","op":"resetrand"}       ResetRand was called               *)
 (*   {"ev":"step","op":"run","kind":k,"cfg":c,"tag":t,"status":n,"err":e,   *)
-(*    "out":[{"k":key,"v":bytes},...],"randfresh":b}                         *)
+(*    "out":[{"k":key,"v":bytes},...]}                                       *)
 (*        one Execute/ExecuteContext call and everything it printed; t makes *)
-(*        the run's standard input its own; b says whether the rand chunk    *)
-(*        equals the first rand() of a new interpreter                       *)
+(*        the run's standard input its own.  The value of a rand() chunk     *)
+(*        ("rand", "rnd") is written by the recorder as "seed:idx" when it   *)
+(*        is the idx-th draw of a NEW interpreter seeded with seed (one of   *)
+(*        the seeds the program uses; 1 = not seeded), else as "?"           *)
 (* Whatever the code did is an event: an error class no run is predicted to  *)
 (* have ("deadline" from a context that is not the call's own, "panic"), an  *)
 (* empty output, output that is not of the program's form (chunk key "?"),   *)
@@ -22,18 +24,17 @@ vars == <<st, l>>
 
 Init == st = StInit /\ l = 1
 
-OutMatches(exp, got, randfresh) ==
+OutMatches(exp, got) ==
   /\ Len(exp) = Len(got)
   /\ \A j \in 1..Len(exp) :
        /\ exp[j].k = got[j].k
-       /\ CASE exp[j].cmp = "eq"    -> exp[j].v = got[j].v
-            [] exp[j].cmp = "fresh" -> randfresh
-            [] OTHER                -> TRUE
+       /\ CASE exp[j].cmp \in {"eq", "rnd"} -> exp[j].v = got[j].v
+            [] OTHER                        -> TRUE
 
 Explains(ev, ex) ==
   /\ ev.status = ex.res.status
   /\ ev.err = ex.res.err
-  /\ OutMatches(ex.res.out, ev.out, ev.randfresh)
+  /\ OutMatches(ex.res.out, ev.out)
 
 Known(ev) == ev.kind \in Kinds /\ ev.cfg \in CfgNames /\ ev.tag \in 1..99
 
